@@ -306,7 +306,7 @@ def units(world):
         def ens(it, w, a, r):
             return FS.eq_clauses(env(it), a[0], a[1], r[0], r[1])
         return FuncUnit("types.Artifact.__eq__[%s,%s]" % (ca, cb), ["types.Artifact.__eq__", "types.Artifact.__hash__",
-                        "types.%s.__init__" % ca, "types.%s.__init__" % cb], ["C18", "C17", "C12"], setup, call, ens,
+                        "types.%s.__init__" % ca, "types.%s.__init__" % cb], ["C18", "C17", "C12", "C14", "C15"], setup, call, ens,
                         prop_map={"safety": ["C18"], "frame": ["C12"]}, cost=3)
     for ca, cb in (("Time", "Time"), ("Interval", "Interval"), ("Duration", "Duration"), ("Time", "Interval"),
                    ("Time", "Duration"), ("Interval", "Duration")):
@@ -331,6 +331,14 @@ def units(world):
             o.attrs = dict(src.attrs)
             o.attrs["mstart"], o.attrs["mend"] = 0, 0
             return o
+        if isinstance(t, str):
+            # a literal text (not the text form of a Time): the real body decides (it raises on what is no Time)
+            saved = it.contracts
+            it.contracts = {k: v for k, v in saved.items() if k != "types.Time.from_str"}
+            try:
+                return it.call(f, list(args), dict(kwargs))
+            finally:
+                it.contracts = saved
         raise Unsupported("Time.from_str outside its contract")
 
     def mk_rt(c):
